@@ -3,7 +3,7 @@
    ExtrOcamlBasic only. *)
 From Coq Require Import ExtrOcamlBasic List NArith.
 From Coq.Strings Require Import Byte.
-From GM Require Import Codec.Packet Topic.MatchSpec Broker.Backend Broker.BackendSpec Broker.BackendC13 Broker.BackendC08 Broker.BackendLog.
+From GM Require Import Codec.Packet Topic.MatchSpec Broker.Backend Broker.BackendSpec Broker.BackendC13 Broker.BackendC08 Broker.BackendLog Broker.BackendFrame.
 Extraction Language OCaml.
 Separate Extraction
   Datatypes.length
@@ -17,4 +17,4 @@ Separate Extraction
   BackendSpec.retained_ok BackendSpec.retained_wf BackendSpec.replay_ok BackendSpec.sessions BackendSpec.refused_ok
   BackendC13.unique_ok BackendC13.handover_ok
   BackendC08.offline_queue_ok BackendC08.session_present_ok
-  BackendLog.delivery_ok.
+  BackendLog.delivery_ok BackendFrame.frame_ok.
